@@ -22,7 +22,7 @@ func TestC05_UniqueStoreNeverHoldsDuplicates(t *testing.T) {
 		placement := rapid.SampledFrom([]int{0, 0, 1, 3}).Draw(t, "placement")
 		stores := []txh.StoreOpts{{Name: "st0", Slot: slot, Unique: true, Placement: placement}}
 		nw := rapid.IntRange(2, 3).Draw(t, "writers")
-		domain := rapid.IntRange(2, 7).Draw(t, "domain")
+		domain := rapid.SampledFrom([]int{2, 3, 4, 5, 6, 7, 10, 14}).Draw(t, "domain")
 		empty := rapid.Bool().Draw(t, "emptyStore")
 		var seed []int
 		if !empty {
@@ -52,7 +52,17 @@ func TestC05_UniqueStoreNeverHoldsDuplicates(t *testing.T) {
 				})
 			}
 		}
-		schedule := genSchedule(t, nw)
+		mode := rapid.IntRange(0, 5).Draw(t, "scheduleMode") // 0 starve; 1,2 directed; else free-form
+		var schedule []int
+		var directed []txh.Seg
+		switch {
+		case mode == 0:
+			schedule = genStarve(t, nw)
+		case mode <= 2:
+			directed = genDirected(t, nw)
+		default:
+			schedule = genSchedule(t, nw)
+		}
 		uuidSeed := rapid.Uint64().Draw(t, "uuidSeed")
 		e, err := txh.NewEnv(rapid.SampledFrom([]int{1, 3, 16}).Draw(t, "hashMod"))
 		if err != nil {
@@ -67,8 +77,15 @@ func TestC05_UniqueStoreNeverHoldsDuplicates(t *testing.T) {
 		} else if _, err := seedStore(e, stores, [][]int{seed}); err != nil {
 			t.Fatalf("HARNESS-ERROR %v", err)
 		}
-		res, s := e.RunConcurrent(stores, progs, schedule, txh.ConcOpts{GateCommits: knownSnapshot, MaxTime: 3 * time.Second, Budget: 60 * time.Second})
-		desc := fmt.Sprintf("slot=%d %s seed=%v %s schedule=%s", slot, txh.PlacementNames[placement], seed, renderProgs(progs), renderSched(schedule))
+		res, s := e.RunConcurrent(stores, progs, schedule, txh.ConcOpts{GateCommits: knownSnapshot, Strict: mode == 0, Directed: directed, MaxTime: 3 * time.Second, Budget: 60 * time.Second})
+		desc := fmt.Sprintf("slot=%d %s seed=%v %s schedule=%s strict=%v directed=[%s]", slot, txh.PlacementNames[placement], seed, renderProgs(progs), renderSchedRLE(schedule), mode == 0, renderSegs(directed))
+		overlapped := false
+		for i := range res {
+			if s.OthersMutatedRegistryDuringLastMerge(i) {
+				overlapped = true
+			}
+		}
+		knownMixture := stats.Known("C04", "merge-pass-mixture-commits-misplaced-key")
 		if s.TimedOut {
 			rec.Discard()
 			return
@@ -82,6 +99,10 @@ func TestC05_UniqueStoreNeverHoldsDuplicates(t *testing.T) {
 		}
 		items := d[0].Items
 		for i := 1; i < len(items); i++ {
+			if items[i-1].K >= items[i].K && overlapped && knownMixture {
+				rec.Exclude("another writer's commit wrote the registry in the middle of a writer's last refetch-and-merge pass and the committed store is wrong (known C04 finding: merge pass navigates a mixture of old and new nodes)")
+				return
+			}
 			if items[i-1].K >= items[i].K {
 				t.Fatalf("unique store scan is not strictly increasing: key %d follows key %d (items %v)\n%s", items[i].K, items[i-1].K, txh.Canon(items), desc)
 			}
@@ -122,6 +143,18 @@ func TestC05_UniqueStoreNeverHoldsDuplicates(t *testing.T) {
 		}
 		if s.Switches > 0 {
 			labels = append(labels, "contextSwitches")
+		}
+		if mode == 0 {
+			labels = append(labels, "starvationSchedule")
+		}
+		if len(directed) > 0 {
+			labels = append(labels, "directedSchedule")
+		}
+		for _, r := range res {
+			if mergePasses(r) >= 1 {
+				labels = append(labels, "refetchAndMerge")
+				break
+			}
 		}
 		rec.Case(desc, nt, labels...)
 		rec.Sample("case", map[string]any{"case": desc, "final": txh.Canon(items), "committed": committed})
